@@ -23,6 +23,7 @@ var _ = Service("svc", func() {
 			Field(8, "m", MapOf(String, Int32))
 			Field(9, "tenant", String)
 			Field(10, "u", UInt32)
+			Field(11, "mode", String, func() { Enum("ro", "rw") })
 			Required("id", "tenant")
 		})
 		Result(func() {
@@ -32,7 +33,10 @@ var _ = Service("svc", func() {
 			Required("rid")
 		})
 		GRPC(func() {
-			Metadata(func() { Attribute("tenant") })
+			Metadata(func() {
+				Attribute("tenant")
+				Attribute("mode")
+			})
 		})
 	})
 })
